@@ -114,6 +114,10 @@ def extra_cases():
     for opts in ({}, {"use": "enc"}, {"use": "sig"}, {"key_ops": ["verify"]}, {"key_ops": ["sign"]}, {"key_ops": ["decrypt"]}, {"key_ops": ["sign", "verify"]}):
         for kind in ("rsa", "rsa_d", "ec"):
             out.append({"op": "jws_keyops", "kind": kind, "opts": opts})
+    # a token that carries its maker's own key in a "jwk" header, presented where the caller designates a degenerate (empty) key: never accepted
+    for api in ("jws", "jwt", "jwe-dir", "jwe-A256KW", "jwe-json"):
+        for key in ("b''", "''", "[]", "{}", "{'keys': []}", "0", "False", "KeySet([])", "()"):
+            out.append({"op": "embedded_jwk", "api": api, "key": key})
     jwe_tokens = {"dir": ("dir", "A128CBC-HS256"), "A256KW": ("A256KW", "A128GCM")}
     for name, (alg, enc) in jwe_tokens.items():
         for allow in (["HS256"], ["HS256", "HS512"], [], ["RS256", "ES256"], "default", [alg], [enc], [alg, enc], ["HS256", alg, enc], ["A128KW", "A256GCM"]):
@@ -191,6 +195,27 @@ def impl_extra(c):
         key = KeySet([OctKey.import_key(k) for k in ks]) if c["form"] == "keySet" else {"keys": ks}
         try:
             JsonWebToken(["HS256"]).decode(tok, key)
+            return {"accepted": True}
+        except Exception as e:
+            return {"accepted": False, "error": type(e).__name__}
+    if c["op"] == "embedded_jwk":
+        k = OctKey.import_key(b"A" * 32)
+        jk = dict(k.as_dict(is_private=True))
+        key = eval(c["key"], {"KeySet": KeySet})
+        try:
+            if c["api"] in ("jws", "jwt"):
+                tok = JsonWebSignature().serialize_compact({"alg": "HS256", "jwk": jk}, b'{"sub":"mallory"}', k)
+                if c["api"] == "jws":
+                    JsonWebSignature().deserialize_compact(tok, key)
+                else:
+                    JsonWebToken(["HS256"]).decode(tok, key)
+            elif c["api"] == "jwe-json":
+                obj = JsonWebEncryption().serialize_json({"protected": {"alg": "A256KW", "enc": "A128GCM", "jwk": jk}, "recipients": [{"header": {"jwk": jk}}]}, b"mallory", k)
+                JsonWebEncryption().deserialize_json(obj, key)
+            else:
+                alg = c["api"].split("-", 1)[1]
+                tok = JsonWebEncryption().serialize_compact({"alg": alg, "enc": "A128CBC-HS256", "jwk": jk}, b"mallory", k)
+                JsonWebEncryption().deserialize_compact(tok, key)
             return {"accepted": True}
         except Exception as e:
             return {"accepted": False, "error": type(e).__name__}
@@ -330,7 +355,7 @@ ERR = [(je.MissingAlgorithmError, "missing_algorithm"), (je.UnsupportedAlgorithm
 def impl(c):
     if c["op"] == "confusion":
         return impl_confusion(c)
-    if c["op"] in ("kidtype", "jwe_allow", "callable", "jwe_keyops", "jws_keyops"):
+    if c["op"] in ("kidtype", "jwe_allow", "callable", "embedded_jwk", "jwe_keyops", "jws_keyops"):
         return impl_extra(c)
     tok, header = make_token(c)
     arg = c["arg"]
@@ -405,7 +430,7 @@ def model_line(c):
         if "key_ops" in c["opts"]:
             line["key_ops"] = c["opts"]["key_ops"]
         return line
-    if c["op"] in ("kidtype", "jwe_allow", "callable", "jws_keyops"):
+    if c["op"] in ("kidtype", "jwe_allow", "callable", "embedded_jwk", "jws_keyops"):
         return None
     if c["op"] == "confusion":
         return {"op": "oct_import", "raw": c["raw"]}
@@ -519,6 +544,10 @@ def oracle(c, out):
         if not out["accepted"] and want:
             v.append((f"{c['api']}: token signed by the key the resolver returns was refused ({out.get('error')})", {"kind": "refused-within-policy", "alg": c["alg"], "form": "callable"}))
         return v
+    if c["op"] == "embedded_jwk":
+        if out["accepted"]:
+            v.append((f"{c['api']}: token carrying its maker's key in a jwk header accepted although the caller designated the key {c['key']}", {"kind": "resolver-bypassed", "alg": c["api"]}))
+        return v
     if c["op"] == "jwe_allow":
         listed = c["allowed"] != "default" and c["alg"] in c["allowed"] and c["enc"] in c["allowed"]
         if out["accepted"] and not listed:
@@ -545,7 +574,7 @@ def classify(c, out):
         return f"jwe_keyops/{c['alg']}/{out['encrypt']}/{out['decrypt']}"
     if c["op"] == "jws_keyops":
         return f"jws_keyops/{c['kind']}/{out['sign']}/{out['verify']}"
-    if c["op"] in ("kidtype", "jwe_allow", "callable"):
+    if c["op"] in ("kidtype", "jwe_allow", "callable", "embedded_jwk"):
         return c["op"] + "/" + ("accepted" if out["accepted"] else "refused")
     if c["op"] == "confusion":
         return "confusion/" + ("accepted" if out["accepted"] else "refused") + ("/loads" if out["_loads"] else "")
